@@ -104,6 +104,21 @@ Proof.
 Qed.
 Print Assumptions C17_single_child_death_outcome.
 
+(* ... and that report does not depend on the crash point: two unreported deaths (any two
+   behaviours, any two schedules, killed or not) are reported by the same exception class *)
+Theorem C17_death_report_uniform : forall b sched f b' sched' f',
+  p_stat (ps (run1 b sched)) = PSDone f -> p_stat (ps (run1 b' sched')) = PSDone f' ->
+  child_died_unreported b (c_killed (cs (run1 b sched))) f = true ->
+  child_died_unreported b' (c_killed (cs (run1 b' sched'))) f' = true ->
+  same_report f f' = true /\ report_uniform f b' (c_killed (cs (run1 b' sched'))) f' = true.
+Proof.
+  intros b sched f b' sched' f' Hf Hf' Hd Hd'.
+  rewrite (died_is_cpe P C true C17_programs_check b _ f (lrun_reach P C b sched linit (lr_init P C b)) Hf Hd).
+  rewrite (died_is_cpe P C true C17_programs_check b' _ f' (lrun_reach P C b' sched' linit (lr_init P C b')) Hf' Hd') in *.
+  split; [reflexivity|]. unfold report_uniform. now rewrite orb_true_r.
+Qed.
+Print Assumptions C17_death_report_uniform.
+
 (* terminates for every crash point: whatever the schedule does (kills included), (1) only
    boundedly many steps happen at all, (2) the invocation is never stuck before its end,
    (3) it can always be driven to its end within the bound *)
